@@ -15,6 +15,8 @@ mod ops_c19;
 mod ops_c08;
 mod ops_c11;
 mod ops_c07;
+mod ops_c15;
+mod ops_c12;
 fn dispatch_more(op: &str, args: &[String]) -> Option<String> {
     if let Some(r) = ops_c09::run(op, args) {
         return Some(r);
@@ -33,5 +35,7 @@ fn dispatch_more(op: &str, args: &[String]) -> Option<String> {
     if let Some(r) = ops_c08::run(op, args) { return Some(r); }
     if let Some(r) = ops_c11::run(op, args) { return Some(r); }
     if let Some(r) = ops_c07::run(op, args) { return Some(r); }
+    if let Some(r) = ops_c15::run(op, args) { return Some(r); }
+    if let Some(r) = ops_c12::run(op, args) { return Some(r); }
     None
 }
